@@ -5,6 +5,7 @@ package harness
 import (
 	"context"
 	"fmt"
+	"github.com/ipfs/go-unixfsnode/data"
 	"github.com/ipfs/go-unixfsnode/hamt"
 	"sort"
 	"strings"
@@ -631,6 +632,57 @@ func TestC15_R_ReferenceHAMTWithInlinedShards(t *testing.T) {
 					t.Fatalf("C15: reference HAMT with inlined shard blocks (fanout %d) via %s: lookup of %q returned another entry's link", c.fanout, reifier, name)
 				}
 			}
+		}
+	}
+}
+
+// c15FailedPreloadNode builds a sharded directory, calls the preloading shard constructor directly while one child shard
+// is unavailable (it returns the node together with the error) and gives back that node with storage healthy again.
+func c15FailedPreloadNode(t *testing.T, n, fanout, missing int) (datamodel.Node, []entrySpec) {
+	st := NewStore()
+	var es []entrySpec
+	for i := 0; i < n; i++ {
+		es = append(es, entryFor(fmt.Sprintf("entry-%04d", i), 0))
+	}
+	root, _, err := buildSharded(st, es, fanout)
+	if err != nil {
+		t.Fatal(err)
+	}
+	tree, err := st.ShardTree(root)
+	if err != nil {
+		t.Fatal(err)
+	}
+	shards := tree.ShardsPreOrder()
+	ls := st.LinkSystem()
+	pn, err := loadPlain(ls, root)
+	if err != nil {
+		t.Fatal(err)
+	}
+	tpn := pn.(dagpb.PBNode)
+	ud, err := data.DecodeUnixFSData(tpn.Data.Must().Bytes())
+	if err != nil {
+		t.Fatal(err)
+	}
+	st.Missing = map[cid.Cid]bool{shards[missing%len(shards)]: true}
+	node, perr := hamt.NewUnixFSHAMTShardWithPreload(sessionCtx, tpn, ud, ls)
+	st.Missing = map[cid.Cid]bool{}
+	if perr == nil {
+		t.Fatalf("C12: the preloading shard constructor succeeded although shard #%d cannot be loaded", missing)
+	}
+	return node, es
+}
+
+// A caller that keeps the node the preloading constructor hands out together with its error: once storage is healthy
+// the node is the directory - iteration, length and lookups agree.
+func TestC15_R_NodeKeptFromAFailedPreload(t *testing.T) {
+	for _, missing := range []int{0, 1, 7, 40, 1000003} {
+		node, es := c15FailedPreloadNode(t, 1200, 16, missing)
+		if node == nil {
+			continue // (nothing was handed out: nothing to hold the library to)
+		}
+		pairs, err := checkMapContract(node, []string{"nope", "entry-"})
+		if err != nil || pairs != len(es) {
+			t.Fatalf("C15: node kept from a preload that failed at shard #%d, storage healthy again: %d pairs of %d entries, %v", missing, pairs, len(es), err)
 		}
 	}
 }
